@@ -542,7 +542,7 @@ func execCase(cs string) (string, string) {
 		}()
 		select {
 		case r := <-done:
-			if r.overshot && attempt < 3 {
+			if r.overshot && attempt < 5 {
 				continue
 			}
 			return r.key, r.obs
